@@ -454,7 +454,7 @@ def _roots_sequences(f, g, fromdir):
             kind = 'search'
         pol = None
         for ce, p, _ in g.guards(c):
-            if SX.is_node(ce) and ce.get('k') == 'ref' and ce.get('t') == 'bool':
+            if SX.is_node(ce) and ce.get('k') == 'ref' and (ce.get('t') or '').replace('const ', '') == 'bool':
                 pol = p
                 break
         adds.append((pol, kind, c))
